@@ -155,6 +155,14 @@ type genCtx struct {
 	win0             int64
 	// int64 instruments: magnitude budget so that no sub-sum can overflow
 	posSum, negSum uint64
+	// int64 instruments, wrap class: measurements come in groups of huge
+	// mixed-sign values whose running sum leaves the int64 range while the
+	// sum of the whole group is back inside it (see group); pending is the
+	// rest of the group being emitted, a group is never split by a
+	// collection or over attribute sets
+	wrap    bool
+	pending []int64
+	bigRes  int // sign of the one large group residue left so far (0 = none)
 }
 
 var subnormals = []float64{
@@ -323,6 +331,14 @@ func (g *genCtx) float(t *rapid.T, i int) float64 {
 // positive values <= MaxInt64 and the sum of all negative values >= MinInt64,
 // so no sum over any subset of the sequence overflows.
 func (g *genCtx) int(t *rapid.T, i int) int64 {
+	if g.wrap {
+		if len(g.pending) == 0 {
+			g.pending = g.group(t)
+		}
+		v := g.pending[0]
+		g.pending = g.pending[1:]
+		return v
+	}
 	c := g.c
 	var v int64
 	ci := int64(g.center)
@@ -383,6 +399,76 @@ func (g *genCtx) int(t *rapid.T, i int) int64 {
 		g.negSum += mag
 	}
 	return v
+}
+
+var hugeInts = []int64{
+	math.MaxInt64, math.MaxInt64 - 1, math.MaxInt64 - 7, math.MaxInt64 / 2, math.MaxInt64/2 + 1, math.MaxInt64/2 + 9,
+	1 << 62, 1<<62 + 3, 1<<62 - 1, 3 << 60, 1<<63 - 1<<10,
+}
+
+// group builds one group of the wrap class: 1..4 huge values (around
+// +-MaxInt64, +-MaxInt64/2, +-2^62; mostly of one sign, so that the running
+// sum leaves the int64 range) with small values in between, followed by
+// compensating values (each a legal int64) that bring the sum of the group to
+// a small residue in [-1000, 1000]. At most once per instrument the residue is
+// large (around +-MaxInt64, +-2^62); the small residues after it have the
+// opposite sign. Every interval total and every cumulative total therefore
+// stays inside the int64 range as long as groups are not split, although
+// prefix sums do not. One time in four the group is a single small value.
+func (g *genCtx) group(t *rapid.T) []int64 {
+	if rapid.IntRange(0, 3).Draw(t, "plain") == 0 {
+		return []int64{int64(rapid.IntRange(-50, 50).Draw(t, "small"))}
+	}
+	var out []int64
+	sum := new(big.Int)
+	add := func(v int64) {
+		out = append(out, v)
+		sum.Add(sum, big.NewInt(v))
+	}
+	k := rapid.IntRange(1, 4).Draw(t, "nhuge")
+	neg := rapid.Bool().Draw(t, "hugeneg")
+	for j := 0; j < k; j++ {
+		h := rapid.SampledFrom(hugeInts).Draw(t, "huge")
+		flip := rapid.IntRange(0, 4).Draw(t, "mixed") == 0
+		switch {
+		case neg != flip && h == math.MaxInt64 && rapid.Bool().Draw(t, "minint"):
+			add(math.MinInt64)
+		case neg != flip:
+			add(-h)
+		default:
+			add(h)
+		}
+		for n := rapid.IntRange(0, 2).Draw(t, "nsmall"); n > 0; n-- {
+			add(int64(rapid.IntRange(-20, 20).Draw(t, "small")))
+		}
+	}
+	// residue
+	res := big.NewInt(int64(rapid.IntRange(-1000, 1000).Draw(t, "residue")))
+	switch {
+	case g.bigRes == 0 && rapid.IntRange(0, 3).Draw(t, "bigresidue") == 0:
+		r := rapid.SampledFrom([]int64{math.MaxInt64 - 5, math.MaxInt64 / 2, 1 << 62, math.MinInt64 + 5, -(1 << 62)}).Draw(t, "residuebig")
+		res.SetInt64(r)
+		g.bigRes = res.Sign()
+	case g.bigRes != 0 && res.Sign() == g.bigRes:
+		res.Neg(res)
+	}
+	// compensation: res - sum in chunks that are legal int64 values
+	left := new(big.Int).Sub(res, sum)
+	maxI, minI := big.NewInt(math.MaxInt64), big.NewInt(math.MinInt64)
+	for left.Sign() != 0 {
+		chunk := new(big.Int).Set(left)
+		if chunk.Cmp(maxI) > 0 {
+			chunk.Set(maxI)
+		} else if chunk.Cmp(minI) < 0 {
+			chunk.Set(minI)
+		}
+		if chunk.BitLen() > 40 && rapid.IntRange(0, 2).Draw(t, "splitchunk") == 0 {
+			chunk.Quo(chunk, big.NewInt(int64(rapid.IntRange(2, 5).Draw(t, "divisor"))))
+		}
+		out = append(out, chunk.Int64())
+		left.Sub(left, chunk)
+	}
+	return out
 }
 
 // genUlps draws the distance from a boundary: 0 (the float nearest to the
@@ -458,6 +544,9 @@ func (g *genCtx) setup(t *rapid.T) {
 	g.negRate = rapid.SampledFrom([]int{0, 0, 2, 4}).Draw(t, "negrate")
 	g.e0 = rapid.IntRange(-1074, 960).Draw(t, "e0")
 	g.sets = rapid.SampledFrom([]int{1, 1, 1, 2}).Draw(t, "sets")
+	if c.Int && uni(t, "wrap", 3) == 0 {
+		g.wrap, g.sets = true, 1
+	}
 	if c.Expo && c.MaxScale >= 1 {
 		g.winScale = max(1, int(c.MaxScale)-[]int{0, 0, 0, 1, 2, 5}[uni(t, "windown", 6)])
 		g.winLen = max(0, int(c.MaxSize)-1+rapid.IntRange(-1, 1).Draw(t, "winlen"))
@@ -493,10 +582,7 @@ func genCase(expo bool) func(t *rapid.T) Case {
 		for k := 1; k < ncollect; k++ {
 			at[rapid.IntRange(0, n).Draw(t, "collectat")]++
 		}
-		for i := 0; i < n; i++ {
-			for k := 0; k < at[i]; k++ {
-				c.Ops = append(c.Ops, Op{C: true})
-			}
+		value := func(i int) {
 			op := Op{}
 			if g.sets == 2 {
 				op.S = rapid.IntRange(0, 1).Draw(t, "set")
@@ -508,7 +594,20 @@ func genCase(expo bool) func(t *rapid.T) Case {
 			}
 			c.Ops = append(c.Ops, op)
 		}
-		for k := 0; k < at[n]+1; k++ {
+		due := 0 // collections waiting for the current group (wrap class) to end
+		for i := 0; i < n; i++ {
+			due += at[i]
+			if len(g.pending) == 0 {
+				for ; due > 0; due-- {
+					c.Ops = append(c.Ops, Op{C: true})
+				}
+			}
+			value(i)
+		}
+		for i := n; len(g.pending) > 0; i++ {
+			value(i)
+		}
+		for k := 0; k < due+at[n]+1; k++ {
 			c.Ops = append(c.Ops, Op{C: true})
 		}
 		return c
